@@ -3,6 +3,14 @@ from ..core import CaseResult, Check
 from ..engines import uijson
 
 
+def _lift_guards(program):
+    from ..core import phash
+
+    if isinstance(program, dict) and not program.get("allow_known") and int(phash(program), 16) % 2 == 0:
+        return {**program, "allow_known": True}
+    return program
+
+
 class C14(Check):
     pid = "C14"
     level = "exploration"
@@ -40,7 +48,9 @@ class C14(Check):
     ]
 
     def strategy(self, tier):
-        return uijson.roundtrip_program_strategy(tier)
+        # most of the engine's guards protected findings that are fixed by now (known_findings.json): half of the
+        # programs run with the guards lifted so that those areas are searched again
+        return uijson.roundtrip_program_strategy(tier).map(_lift_guards)
 
     def run_case(self, program):
         res = CaseResult()
